@@ -125,7 +125,7 @@ func TestC13w(t *testing.T) {
 	core.Run(t, core.Spec[CaseW]{
 		Property: "C13", Sub: "w",
 		Rule: "working-hours strings: well-formed H:MM-H:MM / HH:MM-HH:MM with boundary and random clock values in any order, numbers beyond the clock (hours to 29, minutes to 69), a pool of documented-good, grey and malformed strings (missing parts, blanks, trailing newline, wrong separators, full-width digits, extra groups), single-character edits of well-formed strings, noise. Oracle: \"\" => 0 with the enabled bit clear; a window of real clock times with start < end => accepted and the word unpacks per InWorkingHours() to the same four numbers with the enabled bit and nothing above bit 22; wrong shape, hour > 24 / minute > 60, or end before start => error; 24:xx, x:60 and start == end => either, but round-trip when accepted. Non-trivial: any non-empty string; distinct = (verdict, generator class, padding, hour buckets)",
-		Gen:   genW, Check: checkW, Classify: classifyW,
+		Gen:  genW, Check: checkW, Classify: classifyW,
 		Assumptions: []string{"the accepted grammar is the documented form '8:00-17:00' (one or two hour digits, two minute digits)"},
 	})
 }
